@@ -89,26 +89,30 @@ Fixpoint assoc_b (k : list guard) (c : string) : option bool :=
 Definition override (k : list guard) (cond : string -> bool) : string -> bool :=
   fun c => match assoc_b k c with Some b => b | None => cond c end.
 
-(* read off the generated lists: the condition BuildLayers branches on, and the
-   conditions under which buildLayers refuses to build at all (its leading
-   failures: unknown strategy, base image, negative budget) *)
-Definition single_when (defs : fdefs) : list guard :=
-  match find_def entry_point defs with
-  | Some ((g :: nil, _) :: _) => [g]
-  | _ => []
-  end.
-Fixpoint leading_fails (b : list gcall) : list guard :=
+(* read off the generated lists: the conditions under which BuildLayers takes the
+   single-layer path (those of its call of BuildLayer) and the layered path (those of
+   its call of buildLayers), and the conditions under which buildLayers does build:
+   those of its first call that is not a refusal (every statement after a refusal
+   `if c { return error }` carries the negated c) *)
+Fixpoint guards_of_call (n : string) (b : list gcall) : list guard :=
   match b with
-  | (gs, name) :: r =>
-      match gs with
-      | [g] => if String.eqb name "fail" then (fst g, negb (snd g)) :: leading_fails r else []
-      | _ => []
-      end
   | [] => []
+  | (gs, m) :: r => if String.eqb m n then gs else guards_of_call n r
   end.
+Fixpoint first_nonfail_guards (b : list gcall) : list guard :=
+  match b with
+  | [] => []
+  | (gs, m) :: r => if String.eqb m "fail" then first_nonfail_guards r else gs
+  end.
+(* the configurations compared are those the layered build accepts ([accepted_when]: e.g.
+   no base image — a condition buildImage looks at too); the same configuration without
+   its layering block takes the single-layer path *)
+Definition accepted_when (defs : fdefs) : list guard :=
+  match find_def "bc.buildLayers" defs with Some b => first_nonfail_guards b | None => [] end.
+Definition single_when (defs : fdefs) : list guard :=
+  match find_def entry_point defs with Some b => guards_of_call "bc.BuildLayer" b | None => [] end ++ accepted_when defs.
 Definition multi_when (defs : fdefs) : list guard :=
-  map (fun g : guard => (fst g, negb (snd g))) (single_when defs) ++
-  match find_def "bc.buildLayers" defs with Some b => leading_fails b | None => [] end.
+  match find_def entry_point defs with Some b => guards_of_call "bc.buildLayers" b | None => [] end ++ accepted_when defs.
 
 (* what the order must satisfy, as a decidable statement about the two traces:
    both builds run out of neither fuel; they fail together or serialise
